@@ -40,6 +40,7 @@ def body(run):
     run.log("proof: %d obligations; TLC: %d states; %d rows" % (res[0], run.cov["states"], nrows))
     if nrows < 11 * len(set(sizes)) * 3:
         raise vf.Inconclusive("only %d rows generated" % nrows)
+    ll.corrupt_rows(run, rows)
     results = run.go_run(exe[0], ["-prop", "C38", "-workers", "8" if q else "12"], cases=rows, timeout=3000)
     run.absorb(results)
     run.cov["rows"] = nrows
